@@ -37,6 +37,7 @@ type genCfg struct {
 	MacroLadder                               int  // n macros, each pasting the next one twice (acyclic; only the last is pasted for real)
 	MutualTypesMissing                        bool // a long type with an unknown reference and a short type referring back to it, the short one last
 	NoHTTP                                    bool // no URL / method directives outside macros
+	LateFaults                                int  // this many different faults that only the last pipeline stage (validateCatalog) finds
 	PathTypeRefs                              int  // this many URLs whose Path describes its parameter by a reference to an object type
 	EnumMismatch                              int  // 1: a value that is not in its enum (invalid); 2: the same document with the value added to the enum (valid twin)
 	TwinURLs                                  bool // two URLs with identical children (a method with its own Path): one file can be included from both
@@ -371,6 +372,27 @@ func generateDoc(r *rng, cfg genCfg) *Doc {
 			n.Ann = "enum " + fmt.Sprint(i)
 		}
 		body = append(body, n)
+	}
+	if cfg.LateFaults > 0 {
+		kinds := []func(i int) *Node{
+			func(i int) *Node { // request without body
+				return &Node{KW: "POST", Params: fmt.Sprintf("/late%d", i), Kids: []*Node{
+					{KW: "Request", Kids: []*Node{{KW: "Headers", Body: []string{"{", `  "H": "v"`, "}"}}}}, {KW: "200", Params: "any"}}}
+			},
+			func(i int) *Node { // response without body
+				return &Node{KW: "GET", Params: fmt.Sprintf("/late%d", i), Kids: []*Node{
+					{KW: "200", Kids: []*Node{{KW: "Headers", Body: []string{"{", `  "H": "v"`, "}"}}}}}}
+			},
+			func(i int) *Node { // headers that are not an object (a reference to an array type)
+				return &Node{KW: "PUT", Params: fmt.Sprintf("/late%d", i), Kids: []*Node{
+					{KW: "200", Kids: []*Node{{KW: "Headers", Body: []string{"@latearr"}}, {KW: "Body", Params: "any"}}}}}
+			},
+		}
+		body = append(body, &Node{KW: "TYPE", Params: "@latearr", Body: []string{"[1, 2]"}})
+		start := r.n(len(kinds))
+		for i := 0; i < cfg.LateFaults; i++ {
+			body = append(body, kinds[(start+i)%len(kinds)](i))
+		}
 	}
 	if cfg.PathTypeRefs > 0 {
 		body = append(body, &Node{KW: "TYPE", Params: "@ptrobj", Body: []string{"{", `  "a": 1`, "}"}})
